@@ -2,10 +2,10 @@ SPEC = {
     "id": "C07",
     "level": "other",
     "sidecars": ['stems', 'get_hostname'],
-    "functions": ['ural/lru/stems.py:canonicalized_lru_stems', 'ural/lru/stems.py:normalized_lru_stems', 'ural/lru/stems.py:fingerprinted_lru_stems', 'ural/get_hostname.py:get_hostname',
+    "functions": ['ural/utils.py:safe_urlsplit', 'ural/lru/stems.py:canonicalized_lru_stems', 'ural/lru/stems.py:normalized_lru_stems', 'ural/lru/stems.py:fingerprinted_lru_stems', 'ural/get_hostname.py:get_hostname',
                   'ural/fingerprint_url.py:get_fingerprinted_hostname', 'ural/fingerprint_url.py:fingerprint_hostname',
                   'ural/normalize_url.py:get_normalized_hostname', 'ural/normalize_url.py:normalize_hostname'],
-    "function_sidecars": {'ural/fingerprint_url.py:get_fingerprinted_hostname': ["fingerprint_url_main"], 'ural/fingerprint_url.py:fingerprint_hostname': ["fingerprint_url_main"],
+    "function_sidecars": {'ural/utils.py:safe_urlsplit': ["utils"], 'ural/fingerprint_url.py:get_fingerprinted_hostname': ["fingerprint_url_main"], 'ural/fingerprint_url.py:fingerprint_hostname': ["fingerprint_url_main"],
                           'ural/normalize_url.py:get_normalized_hostname': ["normalize_url_main"], 'ural/normalize_url.py:normalize_hostname': ["normalize_url_main"]},
     "lemma_modules": ["props.C07_lemmas"],
     "bounded": ["bcheck.c07"],
